@@ -107,7 +107,7 @@ def transc_axioms(terms, uf, rounds=2):
             neg = _negated(a)
             if neg is not None:
                 new.append(t * exp(neg) == 1)
-        for t1, t2 in (itertools.combinations(ea, 2) if rnd == 0 else ()):
+        for t1, t2 in (itertools.permutations(ea, 2) if rnd == 0 else ()):
             new.append((t1.arg(0) <= t2.arg(0)) == (t1 <= t2))
         la = list(apps['u_ln'].values())
         for t in la:
@@ -120,7 +120,7 @@ def transc_axioms(terms, uf, rounds=2):
                 new.append(z3.Implies(z3.And(a.arg(0) > 0, a.arg(1) > 0), t == ln(a.arg(0)) - ln(a.arg(1))))
             if z3.is_mul(a) and a.num_args() == 2:
                 new.append(z3.Implies(z3.And(a.arg(0) > 0, a.arg(1) > 0), t == ln(a.arg(0)) + ln(a.arg(1))))
-        for t1, t2 in (itertools.combinations(la, 2) if rnd == 0 else ()):
+        for t1, t2 in (itertools.permutations(la, 2) if rnd == 0 else ()):
             new.append(z3.Implies(z3.And(t1.arg(0) > 0, t2.arg(0) > 0), (t1.arg(0) <= t2.arg(0)) == (t1 <= t2)))
         ga = list(apps['u_log10'].values())
         for t in ga:
@@ -130,7 +130,7 @@ def transc_axioms(terms, uf, rounds=2):
             new.append(z3.Implies(a > 0, (a <= 1) == (t <= 0)))
             if z3.is_div(a):
                 new.append(z3.Implies(z3.And(a.arg(0) > 0, a.arg(1) > 0), t == log10(a.arg(0)) - log10(a.arg(1))))
-        for t1, t2 in (itertools.combinations(ga, 2) if rnd == 0 else ()):
+        for t1, t2 in (itertools.permutations(ga, 2) if rnd == 0 else ()):
             new.append(z3.Implies(z3.And(t1.arg(0) > 0, t2.arg(0) > 0), (t1.arg(0) <= t2.arg(0)) == (t1 <= t2)))
         pa = list(apps['u_pow10'].values())
         for t in pa:
@@ -141,7 +141,7 @@ def transc_axioms(terms, uf, rounds=2):
                 new.append(log10(t) == a)
             if z3.is_add(a) and a.num_args() == 2:
                 new.append(t == pow10(a.arg(0)) * pow10(a.arg(1)))
-        for t1, t2 in (itertools.combinations(pa, 2) if rnd == 0 else ()):
+        for t1, t2 in (itertools.permutations(pa, 2) if rnd == 0 else ()):
             new.append((t1.arg(0) <= t2.arg(0)) == (t1 <= t2))
         qa = list(apps['u_probit'].values())
         if qa:
@@ -149,14 +149,14 @@ def transc_axioms(terms, uf, rounds=2):
         for t in qa:
             a = t.arg(0)
             new.append(z3.Implies(z3.And(a > 0, a < 1), (a <= z3.RealVal('1/2')) == (t <= 0)))
-        for t1, t2 in (itertools.combinations(qa, 2) if rnd == 0 else ()):
+        for t1, t2 in (itertools.permutations(qa, 2) if rnd == 0 else ()):
             a1, a2 = t1.arg(0), t2.arg(0)
             new.append(z3.Implies(z3.And(a1 > 0, a1 < 1, a2 > 0, a2 < 1), (a1 <= a2) == (t1 <= t2)))
         sa = list(apps['u_sqrt'].values())
         for t in sa:
             a = t.arg(0)
             new.append(z3.Implies(a >= 0, z3.And(t >= 0, t * t == a)))
-        for t1, t2 in (itertools.combinations(sa, 2) if rnd == 0 else ()):
+        for t1, t2 in (itertools.permutations(sa, 2) if rnd == 0 else ()):
             new.append(z3.Implies(z3.And(t1.arg(0) >= 0, t2.arg(0) >= 0), (t1.arg(0) <= t2.arg(0)) == (t1 <= t2)))
         ax.extend(new)
     seen, out = set(), []
@@ -167,9 +167,15 @@ def transc_axioms(terms, uf, rounds=2):
     return out
 
 
-def to_smt2(ctx, hyps, goal, extra_axioms=()):
+def to_smt2(ctx, hyps, goal, extra_axioms=(), ground=False):
     goal, hyps = skolemize(goal, hyps)
     s = z3.Solver()
+    if ground:
+        # a lemma proved from its listed (ground) hypotheses alone: no quantified axioms are handed to the solver
+        for h in hyps:
+            s.add(h)
+        s.add(z3.Not(goal))
+        return s.to_smt2()
     for a in ctx.sum_axioms():
         s.add(a)
     for a in ctx.assumed:
@@ -243,15 +249,20 @@ def check_cvc5_text(text, timeout_s):
 def _work(job):
     name, text, timeout_ms, use_cvc5 = job
     try:
-        r, dt, reason = check_z3_text(text, timeout_ms, seeds=(0, 7))
+        # z3 first with a short budget; what it leaves open goes to cvc5 (which decides many quantifier-heavy
+        # queries at once that z3 only finds with a lucky seed), then z3 again with the full budget and another seed
+        first = min(timeout_ms, 6000)
+        r, dt, reason = check_z3_text(text, first, seeds=(0,))
         backend = 'z3'
-        if r != 'unsat' and use_cvc5:
+        if r in ('sat', 'unsat'):
+            return name, r, dt, backend, reason
+        if use_cvc5:
             r2, dt2 = check_cvc5_text(text, max(5.0, timeout_ms / 1000.0))
-            if r2 == 'unsat':
-                return name, 'unsat', dt + dt2, 'cvc5', ''
-            if r == 'unknown' and r2 == 'sat':
-                return name, 'sat', dt + dt2, 'cvc5', ''
-        return name, r, dt, backend, reason
+            dt += dt2
+            if r2 in ('sat', 'unsat'):
+                return name, r2, dt, 'cvc5', ''
+        r, dt3, reason = check_z3_text(text, timeout_ms, seeds=(7, 0) if first < timeout_ms else (7,))
+        return name, r, dt + dt3, backend, reason
     except Exception as e:       # solver crash is not a verdict
         return name, 'error', 0.0, 'z3', repr(e)
 
